@@ -177,6 +177,8 @@ def cmd_batch(acc, batch):
                 os.makedirs(other, exist_ok=True)
                 with open(os.path.join(other, "c19helper.py"), "w") as f:
                     f.write("WHO = 'the unrelated invoking directory'\n")
+                with open(os.path.join(other, ".gwfconf.json"), "w") as f:  # another project's settings: none of this project's business
+                    f.write(json.dumps({"backend": "sge", "use_spec_hashes": False, "verbose": "debug"}))
                 for p_ in ("src", "a", "out/b", "c"):
                     os.makedirs(os.path.dirname(os.path.join(other, p_)), exist_ok=True)
                     with open(os.path.join(other, p_), "w") as f:
